@@ -316,7 +316,8 @@ impl Objects {
                 let ev: event::Scenario<W> = match k {
                     "Started" => event::Scenario::Started,
                     "Finished" => event::Scenario::Finished,
-                    "Log" => event::Scenario::Log(msg()),
+                    // (formatted tracing events end with a newline)
+                    "Log" => event::Scenario::Log(format!("{}\n", msg())),
                     "HookS" => event::Scenario::hook_started(hook()),
                     "HookP" => event::Scenario::hook_passed(hook()),
                     "HookF" => event::Scenario::hook_failed(
@@ -429,17 +430,83 @@ where
     });
 }
 
-fn finish<W: World, Wr: Writer<W> + Stats<W>>(
-    mut wr: Wr,
+/// A `Runner` that replays a recorded event stream: lets a pipeline be driven
+/// by the REAL `Cucumber::run` / `run_and_exit` event loop.
+struct ReplayRunner<W>(Vec<Item<W>>);
+
+impl<W: World> cucumber::Runner<W> for ReplayRunner<W> {
+    type Cli = cli::Empty;
+    type EventStream = futures::stream::LocalBoxStream<'static, Item<W>>;
+
+    fn run<S>(self, _: S, _: cli::Empty) -> Self::EventStream
+    where
+        S: futures::Stream<Item = parser::Result<gherkin::Feature>> + 'static,
+    {
+        use futures::StreamExt as _;
+        futures::stream::iter(self.0).boxed_local()
+    }
+}
+
+/// A `Parser` yielding nothing (the replayed stream carries everything).
+struct NoFeatures;
+
+impl cucumber::Parser<()> for NoFeatures {
+    type Cli = cli::Empty;
+    type Output = futures::stream::Empty<parser::Result<gherkin::Feature>>;
+
+    fn parse(self, (): (), _: cli::Empty) -> Self::Output {
+        futures::stream::empty()
+    }
+}
+
+fn app<W, Wr>(
+    wr: Wr,
     cli: &Wr::Cli,
     items: &[Item<W>],
-) -> Value {
-    feed(&mut wr, cli, items);
-    stats_json(&wr)
+) -> cucumber::Cucumber<W, NoFeatures, (), ReplayRunner<W>, Wr, cli::Empty>
+where
+    W: World,
+    Wr: Writer<W> + writer::Normalized,
+    Wr::Cli: Clone,
+{
+    cucumber::Cucumber::<W, _, (), _, _, cli::Empty>::custom(
+        NoFeatures,
+        ReplayRunner(items.to_vec()),
+        wr,
+    )
+        .with_cli(cli::Opts {
+            re_filter: None,
+            tags_filter: None,
+            parser: cli::Empty,
+            runner: cli::Empty,
+            writer: cli.clone(),
+            custom: cli::Empty,
+        })
+}
+
+/// Drives two instances of the pipeline through the real `Cucumber` event
+/// loop: `run()` hands the writer back (statistics, `execution_has_failed`),
+/// `run_and_exit()` shows whether the process would exit with a failure.
+fn finish<W, Wr>(mk: &dyn Fn() -> Wr, cli: &Wr::Cli, items: &[Item<W>]) -> Value
+where
+    W: World,
+    Wr: Writer<W> + Stats<W> + writer::Normalized,
+    Wr::Cli: Clone,
+{
+    let wr = futures::executor::block_on(app(mk(), cli, items).run(()));
+    let mut v = stats_json(&wr);
+    let prev = panic::take_hook();
+    panic::set_hook(Box::new(|_| {}));
+    let r = panic::catch_unwind(AssertUnwindSafe(|| {
+        futures::executor::block_on(app(mk(), cli, items).run_and_exit(()));
+    }));
+    panic::set_hook(prev);
+    v["exit_failed"] = json!(r.is_err());
+    v
 }
 
 fn wrap_and_run<W, Wr>(
-    wr: Wr,
+    mk: &dyn Fn() -> Wr,
     cli: &Wr::Cli,
     fos: bool,
     rep: bool,
@@ -447,14 +514,15 @@ fn wrap_and_run<W, Wr>(
 ) -> Value
 where
     W: World,
-    Wr: Writer<W> + Stats<W> + writer::NonTransforming,
+    Wr: Writer<W> + Stats<W> + writer::NonTransforming + writer::Normalized,
+    Wr::Cli: Clone,
 {
     match (fos, rep) {
-        (false, false) => finish(wr, cli, items),
-        (true, false) => finish(FailOnSkipped::new(wr), cli, items),
-        (false, true) => finish(Repeat::failed(wr), cli, items),
+        (false, false) => finish(mk, cli, items),
+        (true, false) => finish(&|| FailOnSkipped::new(mk()), cli, items),
+        (false, true) => finish(&|| Repeat::failed(mk()), cli, items),
         (true, true) => {
-            finish(FailOnSkipped::new(Repeat::failed(wr)), cli, items)
+            finish(&|| FailOnSkipped::new(Repeat::failed(mk())), cli, items)
         }
     }
 }
@@ -489,19 +557,25 @@ pub fn run_pipeline<W: World + Debug + 'static>(
     let ltcli = writer::libtest::Cli::default;
     let bcli = || writer::basic::Cli { verbose: 0, color: Coloring::Never };
     match base {
-        "sn" => wrap_and_run(sn::<W>(), &cli::Empty, fos, rep, items),
+        "sn" => wrap_and_run(&sn::<W>, &cli::Empty, fos, rep, items),
         "snb" => wrap_and_run(
-            writer::Basic::raw(Vec::new(), Coloring::Never, Verbosity::Default)
+            &|| {
+                writer::Basic::raw(
+                    Vec::new(),
+                    Coloring::Never,
+                    Verbosity::Default,
+                )
                 .normalized::<W>()
-                .summarized(),
+                .summarized()
+            },
             &bcli(),
             fos,
             rep,
             items,
         ),
-        "lt" => wrap_and_run(lt::<W>(), &ltcli(), fos, rep, items),
+        "lt" => wrap_and_run(&lt::<W>, &ltcli(), fos, rep, items),
         "tee" => wrap_and_run(
-            Tee::new(sn::<W>(), lt::<W>()),
+            &|| Tee::new(sn::<W>(), lt::<W>()),
             &cli::Compose { left: cli::Empty, right: ltcli() },
             fos,
             rep,
@@ -510,15 +584,17 @@ pub fn run_pipeline<W: World + Debug + 'static>(
         "orl" | "orr" => {
             let left = base == "orl";
             wrap_and_run(
-                writer::Or::new(
-                    sn::<W>(),
-                    lt::<W>(),
-                    move |_: &Item<W>,
-                          _: &cli::Compose<
-                        cli::Empty,
-                        writer::libtest::Cli,
-                    >| left,
-                ),
+                &|| {
+                    writer::Or::new(
+                        sn::<W>(),
+                        lt::<W>(),
+                        move |_: &Item<W>,
+                              _: &cli::Compose<
+                            cli::Empty,
+                            writer::libtest::Cli,
+                        >| left,
+                    )
+                },
                 &cli::Compose { left: cli::Empty, right: ltcli() },
                 fos,
                 rep,
@@ -551,6 +627,9 @@ pub fn feed_pipelines<W: World + Debug + 'static>(
             }
             if v.get("writer_panic").is_none() {
                 v["writer_panic"] = json!("");
+            }
+            if v.get("exit_failed").is_none() {
+                v["exit_failed"] = json!(false);
             }
             v
         })
@@ -646,6 +725,41 @@ pub fn replay_summarize(
     };
     actual["features"] = json!(num(r"(\d+) features?"));
     actual["rules"] = json!(num(r"(\d+) rules?"));
+    // every number the summary text states (omitted parts are zeros)
+    let line_of = |word: &str| {
+        summary
+            .lines()
+            .find(|l| {
+                Regex::new(&format!(r"^\d+ {word}s?\b")).unwrap().is_match(l)
+            })
+            .unwrap_or("")
+            .to_owned()
+    };
+    let in_line = |line: &str, re: &str| {
+        Regex::new(re)
+            .unwrap()
+            .captures(line)
+            .and_then(|c| c[1].parse::<u64>().ok())
+            .unwrap_or(0)
+    };
+    let (scl, stl) = (line_of("scenario"), line_of("step"));
+    let text = json!({
+        "present": !summary.is_empty(),
+        "features": num(r"(\d+) features?"),
+        "rules": num(r"(\d+) rules?"),
+        "sc_total": in_line(&scl, r"^(\d+) scenario"),
+        "sc_passed": in_line(&scl, r"(\d+) passed"),
+        "sc_skipped": in_line(&scl, r"(\d+) skipped"),
+        "sc_failed": in_line(&scl, r"(\d+) failed"),
+        "sc_retried": in_line(&scl, r"(\d+) retr"),
+        "st_total": in_line(&stl, r"^(\d+) step"),
+        "st_passed": in_line(&stl, r"(\d+) passed"),
+        "st_skipped": in_line(&stl, r"(\d+) skipped"),
+        "st_failed": in_line(&stl, r"(\d+) failed"),
+        "st_retried": in_line(&stl, r"(\d+) retr"),
+        "parsing_errors": num(r"(\d+) parsing errors?"),
+        "hook_errors": num(r"(\d+) hook errors?"),
+    });
     let logk: Vec<Value> = log
         .borrow()
         .iter()
@@ -658,7 +772,7 @@ pub fn replay_summarize(
         .collect();
     let verdicts = feed_pipelines::<RWorld>(pipelines, items);
     json!({"actual": actual, "log": logk, "verdicts": verdicts,
-           "panic": panic_msg, "summary": summary})
+           "panic": panic_msg, "summary": summary, "text": text})
 }
 
 // ------------------------------------------------- replay: combinators ----
